@@ -1,16 +1,16 @@
 From DV Require Import Status.
 
-(* the stat-cache hypothesis ("racy git"): an unchanged stat signature means unchanged content and mode *)
+(* the stat-cache hypothesis ("racy git"): an unchanged stat signature means unchanged content
+   (the mode is part of what lstat returns and is compared directly) *)
 Definition sig_faithful (i : ientry) (x : wentry) : Prop :=
-  w_sig x = i_sig i -> e_id (w_entry x) = e_id (i_entry i) /\ e_mode (w_entry x) = e_mode (i_entry i).
+  w_sig x = i_sig i -> e_id (w_entry x) = e_id (i_entry i).
 
 Lemma check_entry_exact fm i w :
   (forall x, w = Some x -> w_isdir x = false /\ sig_faithful i x) ->
   check_entry fm i w = differs fm i w.
 Proof.
   intros H. destruct w as [x|]; [|reflexivity]. destruct (H x eq_refl) as [D F]. unfold check_entry, differs. rewrite D.
-  destruct (w_sig x =? i_sig i) eqn:E; [|reflexivity]. apply Z.eqb_eq in E. destruct (F E) as [A B].
-  rewrite A, B, !Z.eqb_refl. destruct fm; reflexivity.
+  destruct (w_sig x =? i_sig i) eqn:E; [|reflexivity]. apply Z.eqb_eq in E. rewrite (F E), Z.eqb_refl. reflexivity.
 Qed.
 
 Lemma clean_after_checkout_lemma fm t sigs p :
@@ -19,7 +19,7 @@ Lemma clean_after_checkout_lemma fm t sigs p :
   unstaged fm i w p = false /\ untracked i w p = false.
 Proof.
   unfold checkout, staged_add, staged_delete, staged_modify, unstaged, untracked, check_entry, entry_eqb.
-  destruct (t p) as [e|]; cbn; [|auto]. rewrite !Z.eqb_refl. auto.
+  destruct (t p) as [e|]; cbn; [|auto]. rewrite !Z.eqb_refl. cbn. rewrite andb_false_r. auto.
 Qed.
 
 Lemma restage_same_tree t sigs p : index_tree (add_all (snd (checkout t sigs))) p = t p.
